@@ -118,6 +118,41 @@ fn extra(cfg: &RunCfg, w: &mut Worker) {
             crate::gen::text::enumerate_count(alphabet.len(), max) as u64 * 7,
         );
     }
+    // word-count ladder: ONE paragraph (no line break) of N words for N around powers of two — buffers,
+    // chunking and caches keyed on the number of words of a line change behaviour at such sizes
+    {
+        let mut ns: Vec<usize> = vec![63, 64, 65, 127, 128, 129, 255, 256, 257, 300, 511, 512, 513, 1023, 1024, 1025, 4095, 4096, 4097];
+        if cfg.thorough {
+            ns.extend([16383, 16384, 16385, 65535, 65536, 65537]);
+        }
+        let vocab = ["foo", "é", "你好", "a", "longerword", "x-y", "wörld", "of"];
+        let mut r = Rng::stream(cfg.seed, &["C17", "ladder"], 0);
+        let mut k = 0u64;
+        let mut idx = 0usize;
+        for n in &ns {
+            for width in [7usize, 20, 30, 80] {
+                for variant in 0..2 {
+                    idx += 1;
+                    let mut s = String::new();
+                    for i in 0..*n {
+                        if i > 0 {
+                            s.push(' ');
+                        }
+                        s.push_str(if variant == 0 { vocab[i % vocab.len()] } else { *r.pick(&vocab) });
+                    }
+                    if idx % cfg.threads.max(1) != w.id || w.stopped() {
+                        continue;
+                    }
+                    w.run_case(&Case::new("inplace").text(s).num(width));
+                    k += 1;
+                }
+            }
+        }
+        *w.stats.counters.entry("single_paragraph_word_ladder".to_string()).or_insert(0) += k;
+        if w.id == 0 {
+            w.note_subrun("word-ladder", &format!("single paragraphs of N words, N in {:?} x widths {{7,20,30,80}} x 2 vocabular orders (sharded)", ns), (ns.len() * 8) as u64);
+        }
+    }
     // stress: one long text per worker
     if cfg.thorough || w.id < 4 {
         let mut r = Rng::stream(cfg.seed, &["C17", "stress"], w.id as u64);
@@ -141,7 +176,7 @@ pub fn prop() -> Prop {
         panic_is_violation: false,
         budget: (1800000, 48000000),
         extra: Some(extra),
-        required: &["breaks_inserted", "multibyte_with_breaks", "space_runs_with_breaks", "multi_paragraph_with_breaks", "stress_texts"],
+        required: &["single_paragraph_word_ladder", "breaks_inserted", "multibyte_with_breaks", "space_runs_with_breaks", "multi_paragraph_with_breaks", "stress_texts"],
         known: None,
     }
 }
